@@ -124,3 +124,26 @@ func FuzzDecodeCSV(f *testing.F) {
 	seed(f, "DecodeCSV")
 	f.Fuzz(func(t *testing.T, data []byte) { fuzzOne(t, "DecodeCSV", data) })
 }
+
+// TestCorpusToRecord converts the input go test saved after a fuzz worker died (VERIF_FUZZ_CORPUS_FILE, target in
+// VERIF_FUZZ_TARGET) into a replay record of the clause "C16/<target>/bytes" under VERIF_FUZZ_OUT, without running the
+// oracle; the driver then replays that record in a fresh process to decide whether the death reproduces.
+func TestCorpusToRecord(t *testing.T) {
+	path := os.Getenv("VERIF_FUZZ_CORPUS_FILE")
+	if path == "" {
+		t.Skip("driver helper")
+	}
+	data, err := kit.ReadFuzzCorpusBytes(path)
+	if err != nil {
+		t.Fatal(err)
+	}
+	target := strings.TrimPrefix(os.Getenv("VERIF_FUZZ_TARGET"), "Fuzz")
+	clause := "C16/" + target + "/bytes"
+	rec, _ := json.Marshal(map[string]any{"clause": clause, "msg": "the fuzz worker process died on this input", "case": byteCase{Data: data}})
+	dir := os.Getenv("VERIF_FUZZ_OUT")
+	os.MkdirAll(dir, 0o755)
+	sum := sha1.Sum(data)
+	if err := os.WriteFile(filepath.Join(dir, fmt.Sprintf("crash-%x.json", sum[:8])), rec, 0o644); err != nil {
+		t.Fatal(err)
+	}
+}
